@@ -39,6 +39,10 @@ func (f *FnVC) strExt(a, b string) {
 	f.extList = append(f.extList, [2]string{a, b})
 }
 
+func zarrAxiomText() string {
+	return "(assert (forall ((i Int)) (! (= (select zarr_Str i) str_empty) :pattern ((select zarr_Str i)))))\n"
+}
+
 func strAxiomText() string {
 	return `(assert (forall ((a Str) (b Str)) (! (= (slen (scat a b)) (+ (slen a) (slen b))) :pattern ((scat a b)))))
 (assert (forall ((a Str) (b Str) (k Int)) (! (=> (and (<= 0 k) (< k (+ (slen a) (slen b)))) (= (sat (scat a b) k) (ite (< k (slen a)) (sat a k) (sat b (- k (slen a)))))) :pattern ((sat (scat a b) k)))))
